@@ -19,6 +19,14 @@
 (*          modification time changes, until it is killed: no exit status  *)
 (*          (why = "watching"); library failures are printed over, not     *)
 (*          reported; with stdin input the flag is ignored                 *)
+(*   sp     \in {"long","short","eq"}: how the invocation is SPELLED (the    *)
+(*            grammar below: command aliases, flag aliases, -x v / --x=v,   *)
+(*            flag order); the meaning of an invocation does not depend on  *)
+(*            it (DecodeRoundTrip), the real binary must agree              *)
+(*   usage  \in {"","noarg","timeout0","timeoutbad"}: further usage errors  *)
+(*   desc:  template --description                                          *)
+(*   sub may also be "version", "help", "none" (no argument at all: the     *)
+(*          help text, exit 0) and "bogus" (an unknown subcommand)          *)
 (* "ExitZeroOnUsageError" \in Dev: main prints a non-ExitCoder error and   *)
 (* returns (exit status 0), as built.                                      *)
 (***************************************************************************)
@@ -29,6 +37,139 @@ CONSTANTS Invs, FollowUps, MaxSteps, Dev
 VARIABLES made, hist, last
 cvars == <<made, hist, last>>
 
+---------------------------------------------------------------------------
+(* The command-line grammar: main.go's tables of names.  An invocation is  *)
+(* lexed into tokens [k, name, dashes, val, attached]; Words renders the   *)
+(* tokens into the argv words handed to the real binary; Decode reads the  *)
+(* tokens back through the tables (command names and aliases, flag names   *)
+(* and aliases, which flags take a value) the way urfave/cli does: the     *)
+(* first unknown flag or missing value ends parsing with a usage error,    *)
+(* a word that is not a flag is a stray argument.                          *)
+
+CmdNames ==                      \* canonical command |-> <<name, alias, another alias>>
+  [output   |-> <<"output", "o", "out">>,
+   mkdir    |-> <<"mkdir", "m", "m">>,
+   verify   |-> <<"verify", "vf", "vf">>,
+   template |-> <<"template", "t", "tmpl">>,
+   version  |-> <<"version", "v", "v">>]
+FlagAlias == ("file" :> "f") @@ ("massive" :> "m") @@ ("massive-timeout" :> "mt") @@ ("watch" :> "w")
+          @@ ("dry-run" :> "d") @@ ("extension" :> "e") @@ ("description" :> "desc")
+FlagsOf ==
+  [output   |-> {"file", "massive", "massive-timeout", "format", "watch"},
+   mkdir    |-> {"file", "dry-run", "extension", "target-dir"},
+   verify   |-> {"file", "target-dir", "strict"},
+   template |-> {"description"},
+   version  |-> {}]
+BoolFlags == {"massive", "watch", "dry-run", "strict", "description"}
+Commands == DOMAIN CmdNames
+
+SpIdx(sp) == CASE sp = "long" -> 1 [] sp = "short" -> 2 [] OTHER -> 3
+AliasOf(f) == IF f \in DOMAIN FlagAlias THEN FlagAlias[f] ELSE f
+
+CmdTok(w)  == [k |-> "cmd", name |-> w, dashes |-> 0, val |-> "", attached |-> FALSE]
+ArgTok(w)  == [k |-> "arg", name |-> w, dashes |-> 0, val |-> "", attached |-> FALSE]
+\* a flag as spelled: --name v | -alias v (or -name v when it has no alias) | --name=v
+FlagTok(f, v, sp) ==
+  CASE sp = "long"  -> [k |-> "flag", name |-> f, dashes |-> 2, val |-> v, attached |-> FALSE]
+    [] sp = "short" -> [k |-> "flag", name |-> AliasOf(f), dashes |-> 1, val |-> v, attached |-> FALSE]
+    [] OTHER        -> [k |-> "flag", name |-> f, dashes |-> 2, val |-> IF f \in BoolFlags THEN "true" ELSE v, attached |-> TRUE]
+
+RECURSIVE RevSeq(_)
+RevSeq(s) == IF s = <<>> THEN <<>> ELSE Append(RevSeq(Tail(s)), Head(s))
+SeqOfSet(S) == IF S = {} THEN <<>> ELSE LET x == CHOOSE x \in S : TRUE IN <<x>>   \* (at most one extension in the models)
+
+\* the flags of an invocation in main.go's order of declaration; the "eq" spelling writes them in reverse
+FlagToks(inv) ==
+  LET sp == inv.sp
+      fs == (IF inv.sub = "output" /\ inv.format # "" THEN <<FlagTok("format", inv.format, sp)>> ELSE <<>>)
+         \o (IF inv.massive THEN <<FlagTok("massive", "", sp)>> ELSE <<>>)
+         \o (IF inv.mtimeout THEN <<FlagTok("massive-timeout", "1ns", sp)>> ELSE <<>>)
+         \o (IF inv.usage = "timeout0" THEN <<FlagTok("massive-timeout", "0s", sp)>> ELSE <<>>)
+         \o (IF inv.usage = "timeoutbad" THEN <<FlagTok("massive-timeout", "soon", sp)>> ELSE <<>>)
+         \o (IF inv.watch THEN <<FlagTok("watch", "", sp)>> ELSE <<>>)
+         \o (CASE inv.file = "dash" -> <<FlagTok("file", "-", sp)>>
+               [] inv.file = "existing" -> <<FlagTok("file", "in.md", sp)>>
+               [] inv.file = "missing" -> <<FlagTok("file", "nope.md", sp)>>
+               [] OTHER -> <<>>)
+         \o (IF inv.dryrun THEN <<FlagTok("dry-run", "", sp)>> ELSE <<>>)
+         \o [i \in 1..Len(SeqOfSet(inv.exts)) |-> FlagTok("extension", SeqOfSet(inv.exts)[i], sp)]
+         \o (IF inv.target # "" THEN <<FlagTok("target-dir", inv.target, sp)>> ELSE <<>>)
+         \o (IF inv.strict THEN <<FlagTok("strict", "", sp)>> ELSE <<>>)
+         \o (IF inv.desc THEN <<FlagTok("description", "", sp)>> ELSE <<>>)
+  IN IF sp = "eq" THEN RevSeq(fs) ELSE fs
+
+Lexed(inv) ==
+  CASE inv.sub = "none"  -> <<>>
+    [] inv.sub = "help"  -> IF inv.sp = "eq" THEN <<CmdTok("help")>>
+                            ELSE <<[k |-> "flag", name |-> IF inv.sp = "long" THEN "help" ELSE "h", dashes |-> IF inv.sp = "long" THEN 2 ELSE 1,
+                                    val |-> "", attached |-> FALSE]>>
+    [] inv.sub = "bogus" -> <<CmdTok("frobnicate")>>
+    [] OTHER ->
+         <<CmdTok(CmdNames[inv.sub][SpIdx(inv.sp)])>>
+         \o (IF inv.unknown /\ inv.sp # "eq" THEN <<[k |-> "flag", name |-> "nosuchflag", dashes |-> 2, val |-> "", attached |-> FALSE]>> ELSE <<>>)
+         \o FlagToks(inv)
+         \o (IF inv.unknown /\ inv.sp = "eq" THEN <<[k |-> "flag", name |-> "nosuchflag", dashes |-> 2, val |-> "", attached |-> FALSE]>> ELSE <<>>)
+         \* a value flag as the last word: "flag needs an argument"
+         \o (IF inv.usage = "noarg" THEN <<[k |-> "flag", name |-> IF inv.sp = "short" THEN "f" ELSE "file", dashes |-> IF inv.sp = "short" THEN 1 ELSE 2,
+                                            val |-> "", attached |-> FALSE]>> ELSE <<>>)
+         \o (IF inv.stray THEN <<ArgTok("extra")>> ELSE <<>>)
+
+\* the argv words of a token
+WordsOf(t) ==
+  IF t.k # "flag" THEN <<t.name>>
+  ELSE LET pre == (IF t.dashes = 1 THEN "-" ELSE "--") \o t.name IN
+       IF t.attached THEN <<pre \o "=" \o t.val>>
+       ELSE IF t.val = "" THEN <<pre>> ELSE <<pre, t.val>>
+RECURSIVE Words(_)
+Words(ts) == IF ts = <<>> THEN <<>> ELSE WordsOf(Head(ts)) \o Words(Tail(ts))
+Argv(inv) == Words(Lexed(inv))
+
+\* reading the tokens back through the tables
+CanonCmd(w) == IF \E c \in Commands : \E i \in 1..3 : CmdNames[c][i] = w
+               THEN CHOOSE c \in Commands : \E i \in 1..3 : CmdNames[c][i] = w ELSE "bogus"
+CanonFlag(c, w) == IF \E f \in FlagsOf[c] : w \in {f, AliasOf(f)}
+                   THEN CHOOSE f \in FlagsOf[c] : w \in {f, AliasOf(f)} ELSE "?"
+RECURSIVE DecodeFlags(_, _, _)
+DecodeFlags(c, ts, acc) ==
+  IF ts = <<>> THEN acc
+  ELSE LET t == Head(ts) IN
+    IF t.k # "flag" THEN DecodeFlags(c, Tail(ts), [acc EXCEPT !.stray = TRUE])
+    ELSE LET f == CanonFlag(c, t.name) IN
+      IF f = "?" THEN [acc EXCEPT !.unknown = TRUE]
+      ELSE IF f \notin BoolFlags /\ t.val = "" THEN [acc EXCEPT !.noarg = TRUE]
+      ELSE DecodeFlags(c, Tail(ts), [acc EXCEPT !.set = @ \cup {<<f, IF f \in BoolFlags THEN "true" ELSE t.val>>}])
+Acc0(c) == [sub |-> c, set |-> {}, stray |-> FALSE, unknown |-> FALSE, noarg |-> FALSE]
+Decode(ts) ==
+  IF ts = <<>> THEN Acc0("none")
+  ELSE IF Head(ts).k = "flag" THEN (IF Head(ts).name \in {"help", "h"} THEN Acc0("help") ELSE [Acc0("none") EXCEPT !.unknown = TRUE])
+  ELSE IF Head(ts).name = "help" THEN Acc0("help")
+  ELSE LET c == CanonCmd(Head(ts).name) IN
+       IF c = "bogus" THEN Acc0("bogus") ELSE DecodeFlags(c, Tail(ts), Acc0(c))
+
+\* what an invocation MEANS, spelled out directly (independent of sp): parsing stops at the first usage error,
+\* so the flags recorded are those written before it
+Meaning(inv) ==
+  LET all == {<<"format", inv.format>> : x \in {1} \cap (IF inv.sub = "output" /\ inv.format # "" THEN {1} ELSE {})}
+             \cup {<<"massive", "true">> : x \in IF inv.massive THEN {1} ELSE {}}
+             \cup {<<"massive-timeout", "1ns">> : x \in IF inv.mtimeout THEN {1} ELSE {}}
+             \cup {<<"massive-timeout", "0s">> : x \in IF inv.usage = "timeout0" THEN {1} ELSE {}}
+             \cup {<<"massive-timeout", "soon">> : x \in IF inv.usage = "timeoutbad" THEN {1} ELSE {}}
+             \cup {<<"watch", "true">> : x \in IF inv.watch THEN {1} ELSE {}}
+             \cup {<<"file", CASE inv.file = "dash" -> "-" [] inv.file = "existing" -> "in.md" [] OTHER -> "nope.md">> : x \in IF inv.file # "stdin" THEN {1} ELSE {}}
+             \cup {<<"dry-run", "true">> : x \in IF inv.dryrun THEN {1} ELSE {}}
+             \cup {<<"extension", e>> : e \in inv.exts}
+             \cup {<<"target-dir", inv.target>> : x \in IF inv.target # "" THEN {1} ELSE {}}
+             \cup {<<"strict", "true">> : x \in IF inv.strict THEN {1} ELSE {}}
+             \cup {<<"description", "true">> : x \in IF inv.desc THEN {1} ELSE {}}
+  IN IF inv.sub \in {"none", "help", "bogus"} THEN Acc0(inv.sub)
+     ELSE [sub |-> inv.sub,
+           \* an unknown flag written first ("long"/"short") hides every later flag; written last ("eq") it hides none
+           set |-> IF inv.unknown /\ inv.sp # "eq" THEN {} ELSE all,
+           stray |-> inv.stray /\ ~inv.unknown /\ inv.usage # "noarg",
+           unknown |-> inv.unknown,
+           noarg |-> inv.usage = "noarg" /\ ~inv.unknown]
+
+---------------------------------------------------------------------------
 \* the wiring table: which library operation, with which options
 Dispatch(inv) ==
   CASE inv.sub = "output" ->
@@ -39,15 +180,23 @@ Dispatch(inv) ==
          [op |-> "mkdir", format |-> "", massive |-> inv.massive, dry |-> FALSE, exts |-> inv.exts, target |-> inv.target, strict |-> FALSE]
     [] inv.sub = "verify" ->
          [op |-> "verify", format |-> "", massive |-> FALSE, dry |-> FALSE, exts |-> {}, target |-> inv.target, strict |-> inv.strict]
-    [] OTHER -> [op |-> "template", format |-> "", massive |-> FALSE, dry |-> FALSE, exts |-> {}, target |-> "", strict |-> FALSE]
+    [] inv.sub = "template" ->
+         [op |-> "template", format |-> "", massive |-> FALSE, dry |-> FALSE, exts |-> {}, target |-> "", strict |-> FALSE]
+    \* version, --help, no argument at all: something is printed, the library is not involved
+    [] OTHER -> [op |-> "info", format |-> "", massive |-> FALSE, dry |-> FALSE, exts |-> {}, target |-> "", strict |-> FALSE]
 
-UsageError(inv) == inv.stray \/ inv.unknown \/ (inv.sub = "output" /\ inv.format = "bad")
-OpenError(inv)  == inv.sub # "template" /\ inv.file = "missing"
+\* usage errors are decided on what the command line DECODES to (the grammar above)
+UsageError(inv) ==
+  LET d == Decode(Lexed(inv)) IN
+  \/ d.stray \/ d.unknown \/ d.noarg \/ d.sub = "bogus"
+  \/ (d.sub = "output" /\ <<"format", "bad">> \in d.set)
+  \/ (d.sub = "output" /\ \E v \in {"0s", "soon"} : <<"massive-timeout", v>> \in d.set)
+OpenError(inv)  == inv.sub \in {"output", "mkdir", "verify"} /\ inv.file = "missing"
 
 \* the library's result for the document class and the directory state (from the other layers' results)
 LibResult(inv, m) ==
   LET d == Dispatch(inv) IN
-  CASE d.op = "template" -> "nil"
+  CASE d.op \in {"template", "info"} -> "nil"
     \* --massive-timeout 1ns: the context has expired before the pipeline starts; the call reports it
     [] inv.sub = "output" /\ inv.mtimeout -> "err"
     [] inv.doc = "malformed" -> "err"
@@ -70,7 +219,7 @@ Outcome(inv, m) ==
            \* output refused by stdout: only /dev/full refuses; a CLOSED descriptor 1 is re-opened on
            \* /dev/null by the Go runtime at start-up, so every write is accepted
            wr  == WritesStdout(inv) /\ res = "nil" /\ inv.stdout = "full"
-       IN [exit0 |-> res = "nil" /\ ~wr, called |-> TRUE,
+       IN [exit0 |-> res = "nil" /\ ~wr, called |-> Dispatch(inv).op # "info",
            made |-> m \/ (Dispatch(inv).op = "mkdir" /\ res = "nil"),
            why |-> IF res # "nil" THEN "library" ELSE IF wr THEN "stdout" ELSE "ok"]
 
@@ -91,6 +240,11 @@ TruthfulExit ==
   (hist # <<>>) =>
     LET inv == hist[Len(hist)] IN
     last.exit0 <=> (~UsageError(inv) /\ ~OpenError(inv) /\ last.why = "ok")
-\* dry run never makes anything
-DryRunMakesNothing == \A i \in 1..Len(hist) : TRUE
+\* the grammar is consistent: every spelling of an invocation decodes to what the invocation means
+DecodeRoundTrip == \A i \in 1..Len(hist) : Decode(Lexed(hist[i])) = Meaning(hist[i])
+\* ... and the spelling is irrelevant: invocations that differ only in spelling have the same outcome
+SpellingIrrelevant ==
+  (hist # <<>>) =>
+    LET inv == hist[Len(hist)] IN
+    \A sp \in {"long", "short", "eq"} : Outcome([inv EXCEPT !.sp = sp, !.argv = <<>>], FALSE).exit0 = Outcome([inv EXCEPT !.argv = <<>>], FALSE).exit0
 =============================================================================
